@@ -7,7 +7,7 @@
    earlier versions of the code (kept for the refuted statements).  Single promise: Join is not
    in this model. *)
 From CV Require Import Promise.Promise Promise.PromiseProofs Promise.PromiseStepProofs Promise.MuProofs
-  Promise.PromiseTheorems Promise.PromiseLive Promise.PromiseProxies Promise.PromiseJoin Promise.PromiseJoinProofs Promise.PromiseJoinThms Promise.PromiseJoinInv.
+  Promise.PromiseTheorems Promise.PromiseLive Promise.PromiseProxies Promise.PromiseJoin Promise.PromiseJoinProofs Promise.PromiseJoinThms Promise.PromiseJoinInv Promise.PromiseJoinRefs.
 Open Scope Z_scope.
 
 (* the promise resolves at most once; Fulfill/Reject after the first one panics (OPanic), the
@@ -207,3 +207,23 @@ Print Assumptions C11_join_resolve_once.
 Theorem C11_join_caller_before_resolution_partial : forall v np ops c, jreach v np ops c -> wf_jcaller (jevents c).
 Proof. exact join_caller_before_resolution. Qed.
 Print Assumptions C11_join_caller_before_resolution_partial.
+
+(* seeded C11-r2-1 (Join: parent.clientsRefs++ instead of += p.clientsRefs) refuted on the Join model: after
+   ReleaseClients on the two joined promises of a child-first chain the client is already released *)
+Theorem C11_join_refs_refuted :
+  match jquiesce jrefs1 1000 (jinit 3 refs_history) 7 with
+  | Some c => In (JEDirect 6 DFail) (jevents c) /\ p_relflag (getp c 0) = false
+  | None => False
+  end.
+Proof. exact join_refs_refuted. Qed.
+Print Assumptions C11_join_refs_refuted.
+
+(* proxy clients on chains, the reference count: over all op lists and interleavings the client-table references
+   (clientsRefs summed over all promises) equal the number of promises that have not called ReleaseClients plus the
+   ReleaseClients calls on their way to the end of their chain: Join conserves the references, each ReleaseClients
+   consumes exactly one, so the table is given up by the last ReleaseClients of the promises sharing it and not
+   before.  Violated by the seeded change C11-r2-1 (C11_join_refs_refuted, join_refs_conservation_refuted). *)
+Theorem C11_join_refs_count : forall v np ops c, jv_refs_sum v = true -> jreach v np ops c ->
+  pm_refs (proms c) = pm_unreleased (proms c) + jcount owes (jthreads c).
+Proof. exact join_refs_count. Qed.
+Print Assumptions C11_join_refs_count.
